@@ -436,6 +436,7 @@ class ClientWorldObjectManager:
         # KillObject implicitly kills descendents
         # This may mutate child_ids, use the reversed iterator so we don't
         # invalidate the iterator during removal.
+        surviving_orphans = []
         for child_id in reversed(child_ids):
             # indra special-cases avatar PCodes and doesn't mark them dead
             # due to cascading kill. Is this correct? Do avatars require
@@ -443,8 +444,15 @@ class ClientWorldObjectManager:
             # an explicit follow-up update?
             child_obj = region_state.lookup_localid(child_id)
             if child_obj and child_obj.PCode == PCode.AVATAR:
+                if not obj:
+                    surviving_orphans.append(child_id)
                 continue
             self._kill_object_by_local_id(region_state, child_id)
+
+        # Orphans we took out of the orphanage but didn't kill still have no parent,
+        # same as the unkilled children of a known object that get re-orphaned on untrack.
+        for child_id in reversed(surviving_orphans):
+            region_state._track_orphan(child_id, local_id)
 
         # Have to do this last, since untracking will clear child IDs
         if obj:
